@@ -106,11 +106,17 @@ class State(object):
     verified activation are fresh."""
     a = self.heap.get(key)
     if a is None:
+      if key == ('dict', 'keys'):
+        is_ref = True
       a = z3.Const('H0_%s_%s' % key, z3.ArraySort(z3.IntSort(), sort))
       self.heap[key] = a
       r = z3.Int('h0r')
       if is_ref and sort == z3.IntSort():
         self.axiom(z3.ForAll([r], z3.And(z3.Select(a, r) >= 0, z3.Select(a, r) < ALLOC_BASE)))
+        if key == ('dict', 'keys'):
+          # the hidden key list of a dict is owned by that dict alone (inverse function owner)
+          owner = z3.Function('keylist_owner', z3.IntSort(), z3.IntSort())
+          self.axiom(z3.ForAll([r], owner(z3.Select(a, r)) == r))
       elif key in (('list', 'items'),):
         i = z3.Int('h0i')
         e = z3.Select(z3.Select(a, r), i)
